@@ -31,11 +31,22 @@ Match(o, v) ==
     IF "w" \in DOMAIN o THEN TRUE                             \* too big to carry: not compared
     ELSE IF "i" \in DOMAIN o THEN IsI(v) /\ v.i = o.i
     ELSE IF "s" \in DOMAIN o THEN IsS(v) /\ v.s = o.s
+    ELSE IF IsZ(v) THEN "z" \in DOMAIN o \/ "l" \in DOMAIN o   \* a cell nobody has forced: the harness forces it AFTER the
+                                                              \* run to project it -- what its bodies compute then is not the run's
     ELSE IF "z" \in DOMAIN o THEN IsL(v)                       \* an unforced lazy list: shape only
     ELSE IF "l" \in DOMAIN o THEN IsL(v) /\ Len(v.l) = Len(o.l) /\ \A k \in 1..Len(o.l) : Match(o.l[k], v.l[k])
     ELSE IF "f" \in DOMAIN o THEN IsF(v)
     ELSE FALSE
 MatchSeq(os, vs) == Len(os) = Len(vs) /\ \A k \in 1..Len(os) : Match(os[k], vs[k])
+
+(* the model's stack with every cell that HAS been forced written as the list of its items *)
+RECURSIVE Resolve(_, _)
+Resolve(s, v) == IF IsZ(v) THEN LET c == s.heap[RootOf(s, v.z)]
+                                IN IF c.state = "done" THEN VL([k \in 1..Len(c.acc) |-> Resolve(s, c.acc[k])]) ELSE v
+                 ELSE IF IsL(v) THEN VL([k \in 1..Len(v.l) |-> Resolve(s, v.l[k])])
+                 ELSE v
+RStk(s) == [k \in 1..Len(Stk(s)) |-> Resolve(s, Stk(s)[k])]
+LiveZ(s) == \E k \in 1..Len(Stk(s)) : ZIn(Resolve(s, Stk(s)[k]))
 
 SigOf(n) == IF n.t = "gen" THEN [t |-> "gen", k |-> n.tok.k, v |-> n.tok.v] ELSE [t |-> n.t, k |-> "", v |-> <<>>]
 
@@ -75,7 +86,9 @@ FinalVerdict(s) ==
     ELSE IF s.status = "raise" THEN (IF Fin.raised = (IF T.online THEN "SystemExit" ELSE s.why) THEN "ok"
                                      ELSE "violation:expected-" \o s.why)
     ELSE IF Fin.raised # "" THEN "violation:raised-" \o Fin.raised
-    ELSE IF ~MatchSeq(Fin.stack, Stk(s)) THEN "violation:final-stack"
+    ELSE IF LiveZ(s) /\ Len(Fin.stack) = 1 /\ "x" \in DOMAIN Fin.stack[1]
+         THEN "skip:undefined:forcing-after-the-run-raised"       \* (the harness, not the program, ran those bodies)
+    ELSE IF ~MatchSeq(Fin.stack, RStk(s)) THEN "violation:final-stack"
     ELSE IF Fin.out # s.out THEN "violation:printed-text"
     ELSE "ok"
 
@@ -127,7 +140,7 @@ ProbeStep ==
     /\ LET e == T.ev[l]
            okpos == AtProbe(m)
            sigok == okpos /\ e.sig = SigOf(Head(m.ctl).n)
-           stkok == sigok /\ MatchSeq(e.stack, Stk(m))
+           stkok == sigok /\ MatchSeq(e.stack, RStk(m))
            depok == stkok /\ e.d = Depths(m) /\ Match(e.ctx, Last(m.cvals))
            top == okpos /\ LoopDepth(m) = 0
            bal == ~top \/ (e.d = InitDepths /\ "i" \in DOMAIN e.ctx /\ e.ctx.i = 0)
